@@ -19,9 +19,11 @@
 (***************************************************************************)
 EXTENDS Integers, FiniteSets
 
-CONSTANT
+CONSTANTS
   \* @type: Int;
-  NIds            \* instance identifiers are 1..NIds (fresh and restored instances alike)
+  NIds,           \* instance identifiers are 1..NIds (fresh and restored instances alike)
+  \* @type: Int;
+  NScal           \* secret scalars are tokens 1..NScal (0: none yet)
 
 VARIABLES
   \* @type: Int -> Bool;
@@ -45,9 +47,11 @@ VARIABLES
   \* @type: Int -> Int;
   origin,         \* 0, or the instance whose saved state this one was restored from
   \* @type: Set(Int);
-  saved           \* instances whose state is on disk
+  saved,          \* instances whose state is on disk
+  \* @type: Int -> Int;
+  scal            \* 0, or (a token for) the secret scalar: what serialize() reports as xy_scalar
 
-lvars == <<alive, started, finished, gaveMsg, gaveKey, restored, nmsg, nkey, entropy, origin, saved>>
+lvars == <<alive, started, finished, gaveMsg, gaveKey, restored, nmsg, nkey, entropy, origin, saved, scal>>
 
 Ids == 1..NIds
 
@@ -55,17 +59,20 @@ LInit ==
   /\ alive = [i \in Ids |-> FALSE] /\ started = [i \in Ids |-> FALSE] /\ finished = [i \in Ids |-> FALSE]
   /\ gaveMsg = [i \in Ids |-> FALSE] /\ gaveKey = [i \in Ids |-> FALSE] /\ restored = [i \in Ids |-> FALSE]
   /\ nmsg = [i \in Ids |-> 0] /\ nkey = [i \in Ids |-> 0] /\ entropy = [i \in Ids |-> 0]
-  /\ origin = [i \in Ids |-> 0] /\ saved = {}
+  /\ origin = [i \in Ids |-> 0] /\ saved = {} /\ scal = [i \in Ids |-> 0]
 
 (* a constructor: draws no entropy                                           *)
 LNew(i) ==
   /\ ~alive[i]
   /\ alive' = [alive EXCEPT ![i] = TRUE]
-  /\ UNCHANGED <<started, finished, gaveMsg, gaveKey, restored, nmsg, nkey, entropy, origin, saved>>
+  /\ UNCHANGED <<started, finished, gaveMsg, gaveKey, restored, nmsg, nkey, entropy, origin, saved, scal>>
 
 (* the one start() that returns a message; it alone draws entropy            *)
 LStart(i) ==
   /\ alive[i] /\ ~started[i]
+  /\ scal' \in [Ids -> 0..NScal]          \* any scalar: written without a quantifier over 1..NScal so that TLC, which
+  /\ scal'[i] # 0                         \* evaluates this action on given pairs of states, need not enumerate it
+  /\ \A k \in Ids : k # i => scal'[k] = scal[k]
   /\ started' = [started EXCEPT ![i] = TRUE]
   /\ gaveMsg' = [gaveMsg EXCEPT ![i] = TRUE]
   /\ nmsg' = [nmsg EXCEPT ![i] = @ + 1]
@@ -80,13 +87,13 @@ LFinish(i, key) ==
   /\ finished' = [finished EXCEPT ![i] = TRUE]
   /\ gaveKey' = [gaveKey EXCEPT ![i] = key]
   /\ nkey' = [nkey EXCEPT ![i] = IF key THEN @ + 1 ELSE @]
-  /\ UNCHANGED <<alive, started, gaveMsg, restored, nmsg, entropy, origin, saved>>
+  /\ UNCHANGED <<alive, started, gaveMsg, restored, nmsg, entropy, origin, saved, scal>>
 
 (* serialize() on a started instance                                         *)
 LSerialize(i) ==
   /\ alive[i] /\ started[i]
   /\ saved' = saved \cup {i}
-  /\ UNCHANGED <<alive, started, finished, gaveMsg, gaveKey, restored, nmsg, nkey, entropy, origin>>
+  /\ UNCHANGED <<alive, started, finished, gaveMsg, gaveKey, restored, nmsg, nkey, entropy, origin, scal>>
 
 (* from_serialized() on state saved by i: a started instance that has sent   *)
 (* nothing itself and has not finished; draws no entropy                     *)
@@ -96,6 +103,7 @@ LRestore(j, i) ==
   /\ started' = [started EXCEPT ![j] = TRUE]
   /\ restored' = [restored EXCEPT ![j] = TRUE]
   /\ origin' = [origin EXCEPT ![j] = i]
+  /\ scal' = [scal EXCEPT ![j] = scal[i]]
   /\ UNCHANGED <<finished, gaveMsg, gaveKey, nmsg, nkey, entropy, saved>>
 
 (* crash and revive in one step (Spake2!PersistAndRevive)                     *)
@@ -106,6 +114,7 @@ LPersistAndRevive(j, i) ==
   /\ started' = [started EXCEPT ![j] = TRUE]
   /\ restored' = [restored EXCEPT ![j] = TRUE]
   /\ origin' = [origin EXCEPT ![j] = i]
+  /\ scal' = [scal EXCEPT ![j] = scal[i]]
   /\ UNCHANGED <<finished, gaveMsg, gaveKey, nmsg, nkey, entropy>>
 
 (* every call that must raise - start() again or on a restored instance,     *)
@@ -134,8 +143,15 @@ KeyNeedsStart      == \A i \in Ids : nkey[i] > 0 => started[i]
 EntropyOnlyInStart == \A i \in Ids : entropy[i] = nmsg[i]
 SavedWereStarted   == \A i \in saved : i \in Ids /\ alive[i] /\ started[i]
 RestoredFromSaved  == \A j \in Ids : restored[j] => (origin[j] \in saved /\ started[j])
+(* a started instance has a scalar; a restored one has its origin's (C07, C08) *)
+ScalarInLineage    == \A j \in Ids : /\ (started[j] <=> scal[j] # 0)
+                                       /\ (restored[j] => scal[j] = scal[origin[j]])
 Safety == /\ AtMostOneMsg /\ RestoredNeverSends /\ AtMostOneKey /\ KeyNeedsStart /\ EntropyOnlyInStart
-          /\ SavedWereStarted /\ RestoredFromSaved
+          /\ SavedWereStarted /\ RestoredFromSaved /\ ScalarInLineage
+
+(* C07: the scalar reported by serialize() never changes during the life of an instance (an ACTION invariant:  *)
+(* it holds of every step, so Apalache checks it on one step from any state satisfying IndInv)               *)
+ScalarNeverChanges == \A i \in Ids : started[i] => scal'[i] = scal[i]
 
 (* a started instance stays started; a key, once given, stays given         *)
 Monotone == [][\A i \in Ids : /\ (started[i] => started'[i]) /\ (finished[i] => finished'[i])
@@ -150,7 +166,10 @@ IndInv ==
   /\ nmsg \in [Ids -> 0..1] /\ nkey \in [Ids -> 0..1] /\ entropy \in [Ids -> 0..1]
   /\ origin \in [Ids -> 0..NIds]
   /\ saved \in SUBSET Ids
+  /\ scal \in [Ids -> 0..NScal]
   /\ \A i \in Ids :
+       /\ (started[i] <=> scal[i] # 0)
+       /\ (restored[i] => (origin[i] \in Ids /\ scal[i] = scal[origin[i]]))
        /\ nmsg[i] = (IF gaveMsg[i] THEN 1 ELSE 0)
        /\ nkey[i] = (IF gaveKey[i] THEN 1 ELSE 0)
        /\ entropy[i] = nmsg[i]
